@@ -783,6 +783,28 @@ pub fn fuse_case(t: &mut Tape) -> NetCase {
         }
         rules.push(line);
     }
+    // exact-URL rules (`|url|`) whose URLs are prefixes of one another, with the same options: they
+    // share the token and are fused, but each matches only its own URL
+    let mut exact_urls: Vec<String> = vec![];
+    if t.chance(1, 4) {
+        let base = format!("https://{}.example.com/", w);
+        let o = t.choose(&others);
+        let fam = [base.clone(), format!("{}{}", base, o), format!("{}{}/", base, o), format!("{}{}/{}", base, o, t.choose(&others)), format!("{}a", base)];
+        let os = t.choose(&["", "", "$script", "$image,script"]);
+        let ex = if t.chance(1, 5) { "@@" } else { "" };
+        for u in fam.iter() {
+            if t.chance(2, 3) {
+                rules.push(format!("{}|{}|{}", ex, u, os));
+                exact_urls.push(u.clone());
+            }
+        }
+        if ex == "@@" {
+            rules.push(format!("||{}.example.com^", w));
+        }
+        for u in fam.iter() {
+            exact_urls.push(u.clone());
+        }
+    }
     let mut tags = vec![];
     for tg in TAGS {
         if t.chance(1, 2) {
@@ -791,6 +813,9 @@ pub fn fuse_case(t: &mut Tape) -> NetCase {
     }
     let nreq = 2 + t.pick(8);
     let mut reqs = vec![];
+    for u in exact_urls {
+        reqs.push(ReqSpec { url: u, source: "https://site.org/".into(), rtype: "script".into() });
+    }
     for _ in 0..nreq {
         let o = t.choose(&others);
         let o2 = t.choose(&others);
